@@ -71,6 +71,8 @@ def run_rows_case(spec):
     res = runcheck.execute(spec)
     if res["status"] == "guard":
         return ("refused", [], 0)
+    if runcheck.known_dead(spec, res):
+        return ("refused", [], 0)
     if res["status"] == "crash":
         return ("crash", [{"rule": "crash", "observed": res["err"]}], 0)
     h = res["hist"]
